@@ -56,6 +56,8 @@ KSHIFT, KRESULT, KERROR, KSTUCK = 0, 1, 2, 3
 def gen_grammar(rng):
     n = rng.randint(2, 5)
     names = [(rng.choice(['', '', '_', '_', '_', '?', '?', '!']), 'r%d' % i) for i in range(n)]
+    if rng.random() < 0.5:
+        names[0] = ('_', 'r0')
 
     def ref(i):
         fl, nm = names[i]
@@ -98,9 +100,9 @@ def gen_grammar(rng):
         rec = rng.random()
         item = rng.choice(VAL + ([ref(rng.randrange(i + 1, n))] * 2 if i + 1 < n else []))
         sep = rng.choice(['', '', '_S ', 'B '])
-        if rec < 0.5:
+        if rec < (0.75 if names[i][0] == '_' else 0.4):
             alts = ['%s %s%s' % (ref(i), sep, item), item] + (alts[:1] if rng.random() < 0.3 else [])
-        elif rec < 0.6:
+        elif rec < 0.85 and names[i][0] != '_' or rec < 0.5:
             alts = ['%s %s%s' % (item, sep, ref(i)), item]
         lines.append('%s: %s' % (head(i), ' | '.join(alts)))
     return '\n'.join(lines) + TERM_DEFS
@@ -220,6 +222,26 @@ class Export:
             if is_end and s1 == self.e0:
                 return ss, KRESULT, reduced
         return ss, KSTUCK, reduced
+
+    def completion(self, ss, depth=6, limit=400):
+        """a shortest terminal sequence after which $END is accepted (None if none is found quickly)"""
+        from collections import deque
+        start = tuple(ss)
+        q = deque([(start, [])])
+        seen = {start}
+        names = [t for t in self.term if t != '$END']
+        while q and len(seen) < limit:
+            cur, path = q.popleft()
+            if self.pyfeed(cur, 0)[1] == KRESULT:
+                return path
+            if len(path) >= depth:
+                continue
+            for t in names:
+                s2, kd, _ = self.pyfeed(cur, self.term[t])
+                if kd == KSHIFT and tuple(s2) not in seen:
+                    seen.add(tuple(s2))
+                    q.append((tuple(s2), path + [t]))
+        return None
 
     def coq_tables(self):
         def act(a):
@@ -344,6 +366,15 @@ def witness_resume_lexer():
     if r0 != p.parse(text):
         return {'grammar': g, 'text': text, 'which': 'R', 'original_after_fork_resumed': repr(r0)}
     return None
+
+
+def run_witness(fn, name):
+    """a witness that raises (e.g. because forks share their state stack) also counts as reproduced"""
+    try:
+        return fn()
+    except Exception as e:  # noqa
+        return {'which': {'regress-meta-A': 'A', 'regress-meta-B': 'B', 'regress-resume-lexer': 'R'}[name],
+                'exception': '%s: %s' % (type(e).__name__, str(e)[:200])}
 
 
 # ----------------------------------------------------------------------------------------- fork trees
@@ -646,7 +677,7 @@ class TreeRun:
     def run_tree(self, max_ops):
         rng = self.rng
         last_reduced = False
-        for _ in range(max_ops):
+        for step in range(max_ops):
             if self.fail:
                 break
             live = [i for i, f in enumerate(self.forks) if f.py is not None and not f.done]
@@ -658,7 +689,7 @@ class TreeRun:
             room = len(self.forks) < 12
             can_fork = f.depth < 4 and len(self.forks) < 9
             r = rng.random()
-            if can_fork and (r < 0.2 or (last_reduced and r < 0.5)):
+            if can_fork and (r < 0.2 or (last_reduced and r < 0.5) or (step >= 3 and len(self.forks) == 1)):
                 self.op_copy(i, rng.choice(['copy', 'copy', 'copycopy', 'copydeep', 'imm', 'mut' if f.imm else 'imm']))
                 last_reduced = False
                 continue
@@ -679,11 +710,27 @@ class TreeRun:
             elif self.allow_bad and bad:
                 self.op_feed(i, rng.choice(bad)[0])
                 self.bits.add('error')
-        for i, f in enumerate(list(self.forks)):
-            if self.fail:
-                break
-            if f.py is not None and not f.done and not (f.imm and len(self.forks) >= 16):
-                self.op_feed(i, '$END')
+        # finish every open fork: complete its sentence when that is cheap, then $END
+        i = 0
+        while i < len(self.forks) and not self.fail:
+            f = self.forks[i]
+            i += 1
+            if f.py is None or f.done:
+                continue
+            if f.imm:
+                if len(self.forks) >= 18:
+                    continue
+                if self.ex.pyfeed(f.state.state_stack, 0)[1] == KRESULT or rng.random() < 0.3:
+                    self.op_feed(i - 1, '$END')
+                else:
+                    self.op_copy(i - 1, 'mut')
+                continue
+            comp = self.ex.completion(f.state.state_stack) if rng.random() < 0.85 else None
+            for t in comp or []:
+                if self.fail or self.op_feed(i - 1, t, sep=rng.choice([' ', '\n'])) != KSHIFT:
+                    break
+            if not self.fail:
+                self.op_feed(i - 1, '$END')
 
     def run_shallow(self, max_ops):
         """mutable parsers, shallow copies, feeds and accepts only; nothing is asserted (the model is compared)"""
@@ -944,7 +991,7 @@ def new_parser(rng, force_basic=False):
     from lark.exceptions import GrammarError
     for _ in range(50):
         g = gen_grammar(rng)
-        pp = rng.random() < 0.5
+        pp = rng.random() < 0.6
         mp = rng.random() < 0.8
         lexer = 'basic' if (force_basic or rng.random() < 0.5) else 'contextual'
         try:
@@ -953,6 +1000,18 @@ def new_parser(rng, force_basic=False):
             continue
         return g, pp, mp, lexer, p, Export(p)
     raise RuntimeError('no LALR grammar in 50 attempts')
+
+
+def safely(tr, fn, *a):
+    """an exception escaping from the implementation during a run is a failure of that run (a harness
+    self-check raises RuntimeError, which is not swallowed)"""
+    try:
+        fn(*a)
+    except RuntimeError:
+        raise
+    except Exception as e:  # noqa
+        if not tr.fail:
+            tr.fail = ('exception', '%s: %s' % (type(e).__name__, str(e)[:200]))
 
 
 def witness(g, pp, mp, lexer, tr, kind):
@@ -967,13 +1026,13 @@ def correspond(ctx):
     for fn, name, what in ((witness_meta_A, 'regress-meta-A', 'propagate_positions: a fork changed position data in another fork\'s result'),
                            (witness_meta_B, 'regress-meta-B', 'propagate_positions: a returned result changed when a sibling fork ran'),
                            (witness_resume_lexer, 'regress-resume-lexer', 'fork.resume_parse() advanced the original parser\'s lexer')):
-        w = fn()
+        w = run_witness(fn, name)
         ctx.count('regression', key=name, nontrivial=True)
         if w is not None:
             ctx.violation('regression:' + name, w, True, what)
     defect = False
     lexer_shared = False
-    ngram = ctx.scale(45, 600) * (3 if ctx.widen else 1)
+    ngram = ctx.scale(45, 400) * (3 if ctx.widen else 1)
     groups = []      # (g, pp, mp, lexer, ex, [(kind, run)])
     mm = 2
 
@@ -983,8 +1042,8 @@ def correspond(ctx):
         runs = []
         for _ in range(3):
             tr = TreeRun(rng, p, ex, lexer, allow_bad, mm)
-            tr.run_tree(rng.randint(8, 26))
-            tr.final_oracle()
+            safely(tr, tr.run_tree, rng.randint(8, 26))
+            safely(tr, tr.final_oracle)
             ctx.count('fork-trees', key=(g, pp, mp, tuple(map(tuple, tr.script))), nontrivial=tr.nontrivial(),
                       parsers=len(tr.forks), ops=min(len(tr.ops) // 5 * 5, 40), propagate_positions=pp, lexer=lexer,
                       inplace='inplace' in tr.bits, expand1='expand1' in tr.bits, errors='error' in tr.bits)
@@ -995,7 +1054,7 @@ def correspond(ctx):
         # forks that only exist under shallow copies: no property here, the model alone is compared (this is
         # where the in-place list re-use of ChildFilterLALR becomes visible)
         tr = TreeRun(rng, p, ex, lexer, False, mm)
-        tr.run_shallow(rng.randint(6, 16))
+        safely(tr, tr.run_shallow, rng.randint(6, 16))
         ctx.count('shallow-model', key=(g, pp, mp, tuple(map(tuple, tr.script))),
                   nontrivial=('inplace' in tr.bits and 'fork' in tr.bits), shallow_inplace='inplace' in tr.bits)
         if tr.fail:
@@ -1007,8 +1066,8 @@ def correspond(ctx):
         text, _ = sentence_text(rng, types)
         if types:
             tr = TreeRun(rng, p, ex, lexer, False, mm, text=text)
-            tr.run_lexer_forks(rng.randint(6, 18))
-            tr.final_oracle()
+            safely(tr, tr.run_lexer_forks, rng.randint(6, 18))
+            safely(tr, tr.final_oracle)
             ctx.count('lexer-forks', key=(g, pp, mp, text, tuple(map(tuple, tr.script))),
                       nontrivial=({'fork', 'resume'} <= tr.bits), resume='resume' in tr.bits)
             if tr.fail:
@@ -1022,7 +1081,14 @@ def correspond(ctx):
                 text, _ = sentence_text(rng, types)
                 if not types:
                     continue
-                oe = OnErrorRun(p, ex, text, mm)
+                try:
+                    oe = OnErrorRun(p, ex, text, mm)
+                except Exception as e:  # noqa
+                    ctx.count('on-error', key=(g, pp, mp, text), nontrivial=False)
+                    ctx.violation('on-error:exception', {'kind': 'on_error', 'grammar': g, 'propagate_positions': pp,
+                                                        'maybe_placeholders': mp, 'lexer': lexer, 'text': text,
+                                                        'meta_mode': mm}, True, '%s: %s' % (type(e).__name__, str(e)[:200]))
+                    continue
                 ctx.count('on-error', key=(g, pp, mp, text), nontrivial=(oe.n_err > 0 and oe.ok), skipped=min(oe.n_err, 4))
                 if oe.fail:
                     ctx.violation('on-error:' + oe.fail[0], {'kind': 'on_error', 'grammar': g, 'propagate_positions': pp,
@@ -1052,8 +1118,8 @@ def correspond(ctx):
         ex2 = Export(p)
         for _ in range(80):
             tr = TreeRun(rng, p, ex2, lexer, lexer == 'basic', mm)
-            tr.run_tree(rng.randint(8, 30))
-            tr.final_oracle()
+            safely(tr, tr.run_tree, rng.randint(8, 30))
+            safely(tr, tr.final_oracle)
             if tr.fail:
                 found = tr
                 break
@@ -1071,16 +1137,26 @@ def correspond(ctx):
 def replay(ctx, case):
     w = case['witness']
     if w.get('which') == 'A':
-        return witness_meta_A() is not None
+        return run_witness(witness_meta_A, 'regress-meta-A') is not None
     if w.get('which') == 'B':
-        return witness_meta_B() is not None
+        return run_witness(witness_meta_B, 'regress-meta-B') is not None
     if w.get('which') == 'R':
-        return witness_resume_lexer() is not None
+        return run_witness(witness_resume_lexer, 'regress-resume-lexer') is not None
     if w.get('kind') == 'on_error':
         p = build(w['grammar'], w['propagate_positions'], w['maybe_placeholders'], w['lexer'])
-        return OnErrorRun(p, Export(p), w['text'], w.get('meta_mode', 0)).fail is not None
+        try:
+            return OnErrorRun(p, Export(p), w['text'], w.get('meta_mode', 0)).fail is not None
+        except RuntimeError:
+            raise
+        except Exception:  # noqa
+            return True
     if w.get('kind') in ('tree', 'lexer'):
-        tr = replay_script(w['grammar'], w['propagate_positions'], w['maybe_placeholders'], w['lexer'],
-                           w['script'], w.get('meta_mode', 0), w.get('text'))
+        try:
+            tr = replay_script(w['grammar'], w['propagate_positions'], w['maybe_placeholders'], w['lexer'],
+                               w['script'], w.get('meta_mode', 0), w.get('text'))
+        except RuntimeError:
+            raise
+        except Exception:  # noqa
+            return True
         return tr.fail is not None
     return False
